@@ -188,6 +188,21 @@ func (sc *SCtx) ident(name string) (Val, error) {
 			}
 		}
 	}
+	if name == "rangeslice" && sc.loopHeader != nil {
+		// the slice a `for .. range` loop iterates over (it often has no source name)
+		for _, in := range sc.loopHeader.Instrs {
+			if phi, ok := in.(*ssa.Phi); ok && phi.Comment == "rangeindex" {
+				if call, ok := rangeBound(sc.loopHeader, phi).(*ssa.Call); ok {
+					if b, ok := call.Call.Value.(*ssa.Builtin); ok && b.Name() == "len" && len(call.Call.Args) == 1 {
+						if v, ok := sc.g.env[call.Call.Args[0]]; ok {
+							return v, nil
+						}
+					}
+				}
+			}
+		}
+		return Val{}, fmt.Errorf("rangeslice: not inside a range-over-slice loop")
+	}
 	switch name {
 	case "true":
 		return scalar(True, types.Typ[types.Bool]), nil
@@ -253,21 +268,105 @@ func (sc *SCtx) localVar(name string) (Val, bool) {
 		}
 	}
 	// allocs named after the variable (address-taken locals, named results)
-	for _, b := range g.Fn.Blocks {
-		for _, in := range b.Instrs {
-			if al, ok := in.(*ssa.Alloc); ok && al.Comment == name {
-				if v, ok := g.env[al]; ok {
-					if a := g.addrOf(v); a != nil {
-						return g.load(sc.state(), a, a.RootT), true
-					}
+	{
+		// several variables may share the name (shadowing, sibling scopes): take the
+		// allocation closest to the program point among those that dominate it
+		pt := sc.atBlock
+		if sc.loopHeader != nil {
+			pt = sc.loopHeader
+		}
+		var bestAl *ssa.Alloc
+		for _, b := range g.Fn.Blocks {
+			for _, in := range b.Instrs {
+				al, ok := in.(*ssa.Alloc)
+				if !ok || al.Comment != name {
+					continue
 				}
+				if _, ok := g.env[al]; !ok {
+					continue
+				}
+				if pt != nil && al.Block() != nil && !al.Block().Dominates(pt) {
+					continue
+				}
+				if bestAl == nil || (bestAl.Block() != nil && al.Block() != nil && bestAl.Block().Dominates(al.Block())) {
+					bestAl = al
+				}
+			}
+		}
+		if bestAl != nil {
+			if a := g.addrOf(g.env[bestAl]); a != nil {
+				return g.load(sc.state(), a, a.RootT), true
 			}
 		}
 	}
 	var best *debugBinding
 	cands := g.debugVals[name]
+	// the program point the name is evaluated at
+	point := sc.atBlock
+	if sc.loopHeader != nil {
+		point = sc.loopHeader
+	}
+	// a use of the variable tells its value at the point only if no assignment to the
+	// variable can happen between the use and the point
+	clean := func(u *debugBinding) bool {
+		if point == nil {
+			return true
+		}
+		for i := range cands {
+			d := &cands[i]
+			if !d.Def || d.Obj != u.Obj {
+				continue
+			}
+			if d.Block == u.Block {
+				if d.Idx < u.Idx {
+					continue // assigned before the use: the use sees it
+				}
+				return false // assigned after the use, on the way to the point
+			}
+			// an assignment on a path from the use to the point that does not pass the
+			// use again
+			if g.reachesAvoiding(u.Block, d.Block, u.Block) && g.reachesAvoiding(d.Block, point, u.Block) {
+				return false
+			}
+		}
+		return true
+	}
+	if sc.loopHeader != nil {
+		// not loop-carried (no header phi): if the loop never assigns the variable,
+		// every use inside the loop sees the value it has at the header
+		lp := g.cfg.Loops[sc.loopHeader]
+		assignedInLoop := map[types.Object]bool{}
+		for i := range cands {
+			if cands[i].Def && lp.Blocks[cands[i].Block] {
+				assignedInLoop[cands[i].Obj] = true
+			}
+		}
+		for i := range cands {
+			c := &cands[i]
+			if c.Def || c.Addr || !lp.Blocks[c.Block] || assignedInLoop[c.Obj] {
+				continue
+			}
+			if _, ok := g.env[c.V]; !ok {
+				if _, isC := c.V.(*ssa.Const); !isC {
+					continue
+				}
+			}
+			// the value must be defined outside the loop
+			if in, ok := c.V.(ssa.Instruction); ok && in.Block() != nil && lp.Blocks[in.Block()] {
+				continue
+			}
+			best = c
+			break
+		}
+	}
 	for i := range cands {
+		if best != nil {
+			break
+		}
 		c := &cands[i]
+		if c.Def {
+			continue
+		}
 		if _, ok := g.env[c.V]; !ok {
 			if _, isC := c.V.(*ssa.Const); !isC {
 				continue
@@ -281,8 +380,67 @@ func (sc *SCtx) localVar(name string) (Val, bool) {
 		if sc.atBlock != nil && !c.Block.Dominates(sc.atBlock) {
 			continue
 		}
-		if best == nil || best.Block.Dominates(c.Block) {
-			best = c
+		if !clean(c) {
+			continue
+		}
+		_ = i
+		best = c
+		for j := i + 1; j < len(cands); j++ {
+			c2 := &cands[j]
+			if c2.Def || c2.Obj != best.Obj {
+				continue
+			}
+			if _, ok := g.env[c2.V]; !ok {
+				if _, isC := c2.V.(*ssa.Const); !isC {
+					continue
+				}
+			}
+			if sc.loopHeader != nil && (!c2.Block.Dominates(sc.loopHeader) || g.cfg.Loops[sc.loopHeader].Blocks[c2.Block]) {
+				continue
+			}
+			if sc.atBlock != nil && !c2.Block.Dominates(sc.atBlock) {
+				continue
+			}
+			if clean(c2) && best.Block.Dominates(c2.Block) {
+				best = c2
+			}
+		}
+	}
+	if best == nil && point != nil {
+		// a later use: the value flows unchanged from the point to the use when no
+		// assignment lies on any path between them, and the value already exists at
+		// the point
+		for i := range cands {
+			c := &cands[i]
+			if c.Def || c.Addr || !g.reaches(point, c.Block) {
+				continue
+			}
+			if _, ok := g.env[c.V]; !ok {
+				if _, isC := c.V.(*ssa.Const); !isC {
+					continue
+				}
+			}
+			if in, ok := c.V.(ssa.Instruction); ok && (in.Block() == nil || !in.Block().Dominates(point) || in.Block() == point) {
+				continue
+			}
+			ok := true
+			for j := range cands {
+				d := &cands[j]
+				if !d.Def || d.Obj != c.Obj {
+					continue
+				}
+				if d.Block == c.Block && d.Idx > c.Idx && !g.reachesAvoiding(c.Block, c.Block, nil) {
+					continue // assigned after the use only
+				}
+				if g.reaches(point, d.Block) && g.reaches(d.Block, c.Block) {
+					ok = false
+					break
+				}
+			}
+			if ok {
+				best = c
+				break
+			}
 		}
 	}
 	if best != nil {
